@@ -1,16 +1,17 @@
 #!/bin/sh
-# collect_seed.sh C15 : copy the sub-agent's seeds into /verif/seeded and test them
-P=$1; shift
+# collect_seed.sh <prefix> <offset> C15 [seedtest args]: copy a sub-agent's seeds
+# from <prefix>-C15/_seed/{1,2} to /verif/seeded/C15-{1+offset,2+offset} and test them
+PRE=$1; OFF=$2; P=$3; shift 3
 for n in 1 2; do
-  src=/tmp/wt-$P/_seed/$n
+  src=$PRE-$P/_seed/$n
   [ -f $src/patch.diff ] || continue
-  dst=/verif/seeded/$P-$n
+  dst=/verif/seeded/$P-$((n+OFF))
   mkdir -p $dst
-  cp $src/patch.diff $src/demo.py $src/meta.json $dst/; sed -i "s#/tmp/wt-$P#/tmp#g" $dst/demo.py
+  cp $src/patch.diff $src/demo.py $src/meta.json $dst/; sed -i "s#$PRE-$P#/tmp#g" $dst/demo.py
   /verif/harness/seedtest.py $dst "$@" > $dst/seedtest.log 2>&1
   /venv/bin/python - <<PY
 import json
 r=json.load(open('$dst/result.json'))
-print('$P-$n valid=%s tests=%s demo_clean=%s demo_patched=%s caught_by=%s' % (r['valid_seed'], r.get('tests_passed'), r.get('demo_clean_rc'), r.get('demo_patched_rc'), r['caught_by']), {c:(v['rc'],v['violations']) for c,v in r['checks'].items()})
+print('$P-$((n+OFF)) valid=%s tests=%s demo_clean=%s demo_patched=%s caught_by=%s' % (r['valid_seed'], r.get('tests_passed'), r.get('demo_clean_rc'), r.get('demo_patched_rc'), r['caught_by']), {c:(v['rc'],v['violations']) for c,v in r['checks'].items()})
 PY
 done
